@@ -42,7 +42,8 @@ META = {
     'rule': ("cases = topologies of 1-3 molecule types built from 2-4 generated residue definitions (2-5 atoms: chain / ring / "
              "branched; optional angles; one virtual site of a random kind incl. parameters; equal residue names with different "
              "atom names) x optional build file ([ template ] for one residue, [ volumes ] for another; split over two files); "
-             "non-trivial = >= 2 distinct templates, a virtual site or a user value; distinct by (topology text, build files)"),
+             "non-trivial = >= 2 distinct templates, a virtual site or a user value; distinct by (topology text, build files)"
+             "; directed / added families (waves 10-12): a periodic dihedral before the harmonic one on the same atoms (improper targets judged)"),
 }
 
 PRELUDE = """From Coq Require Import List Bool Arith ZArith PrimFloat.
